@@ -11,10 +11,12 @@
 //!   * on success every other socket import remains an import of the result, every socket export is exported under its
 //!     own name, a plug contributing nothing is not instantiated, and the result encodes to a valid component
 //!     (EncodeOptions::validate) whose imports/exports are read back by decoding it.
-//! Universe: socket imports subset of { a:b/c@0.2.1 {f}, x: func, a:b/d {g} } (non-empty), socket exports run [+ extra];
+//! Universe: socket imports subset of { a:b/c@0.2.0 {f} (imported first), a:b/c@0.2.1 {f}, x: func, a:b/d {g} } (non-empty),
+//! socket exports run [+ extra]; reading taken for a socket importing two versions of one track: an exact name wins, and
+//! one plug export feeds one socket import (the other version stays an import);
 //! plug export sets: {a:b/c@0.2.0 {f}}, {a:b/c@0.2.1 {f}}, {a:b/c@0.2.1 {f -> u8}} (incompatible), {x}, {x -> u8}
 //! (incompatible), {z} (no match), {x, a:b/d {g}}, {a:b/c@0.3.0 {f}} (other track), {a:b/c@0.2.1 {f, g}} (more than needed:
-//! compatible), {a:b/c@0.2.1 {}} (less than needed: incompatible).
+//! compatible), {a:b/c@0.2.1 {}} (less than needed: incompatible), {a:b/c@0.2.0 {f}, a:b/c@0.2.1 {f}} (both versions).
 //! Exit 0 = agreement, 1 = a disagreeing case is printed.   usage: c10_plug [max_plugs]
 use std::collections::{BTreeMap, BTreeSet};
 use wac_graph::{plug, CompositionGraph, EncodeOptions, NodeKind, PlugError};
@@ -26,7 +28,7 @@ enum Item { C020, C021, C021Bad, C030, X, XBad, Z, D, C021Big, C021Empty }   // 
 fn item_name(i: Item) -> &'static str {
     match i { Item::C020 => "a:b/c@0.2.0", Item::C021 | Item::C021Bad | Item::C021Big | Item::C021Empty => "a:b/c@0.2.1", Item::C030 => "a:b/c@0.3.0", Item::X | Item::XBad => "x", Item::Z => "z", Item::D => "a:b/d" }
 }
-const SOCKET_IMPORTS: [&str; 3] = ["a:b/c@0.2.1", "x", "a:b/d"];
+const SOCKET_IMPORTS: [&str; 4] = ["a:b/c@0.2.1", "x", "a:b/d", "a:b/c@0.2.0"];
 
 fn plug_wat(items: &[Item]) -> Vec<u8> {
     let mut s = String::from(r#"(component
@@ -57,6 +59,8 @@ fn plug_wat(items: &[Item]) -> Vec<u8> {
 }
 fn socket_wat(mask: u32, extra: bool) -> Vec<u8> {
     let mut s = String::from("(component\n");
+    // a second version on the same semver track, imported BEFORE the first: an exact name must win over it
+    if mask & 8 != 0 { s.push_str("  (import \"a:b/c@0.2.0\" (instance (export \"f\" (func))))\n"); }
     if mask & 1 != 0 { s.push_str("  (import \"a:b/c@0.2.1\" (instance (export \"f\" (func))))\n"); }
     if mask & 2 != 0 { s.push_str("  (import \"x\" (func))\n"); }
     if mask & 4 != 0 { s.push_str("  (import \"a:b/d\" (instance (export \"g\" (func))))\n"); }
@@ -73,10 +77,13 @@ fn socket_wat(mask: u32, extra: bool) -> Vec<u8> {
 /// which socket import a plug item supplies (None: no matching import, or type-incompatible)
 fn supplies(item: Item, socket_mask: u32) -> Option<&'static str> {
     let has = |n: &str| SOCKET_IMPORTS.iter().enumerate().any(|(i, m)| *m == n && socket_mask & (1 << i) != 0);
+    // the socket import a `a:b/c@0.2.x` export goes to: its own name when the socket imports it, otherwise the first
+    // semver-compatible import in the socket's import order (0.2.0 is imported before 0.2.1); one export feeds one import
+    let c_target = |own: &'static str| -> Option<&'static str> { if has(own) { Some(own) } else if has("a:b/c@0.2.0") { Some("a:b/c@0.2.0") } else if has("a:b/c@0.2.1") { Some("a:b/c@0.2.1") } else { None } };
     match item {
         // an instance offering MORE than the socket needs is compatible, one offering less is not
-        Item::C021 | Item::C021Big => if has("a:b/c@0.2.1") { Some("a:b/c@0.2.1") } else { None },
-        Item::C020 => if has("a:b/c@0.2.1") { Some("a:b/c@0.2.1") } else { None },   // semver-compatible name
+        Item::C021 | Item::C021Big => c_target("a:b/c@0.2.1"),
+        Item::C020 => c_target("a:b/c@0.2.0"),
         Item::C021Bad | Item::C021Empty | Item::XBad | Item::Z | Item::C030 => None,
         Item::X => if has("x") { Some("x") } else { None },
         Item::D => if has("a:b/d") { Some("a:b/d") } else { None },
@@ -86,7 +93,7 @@ fn supplies(item: Item, socket_mask: u32) -> Option<&'static str> {
 fn main() {
     let maxp: usize = std::env::args().nth(1).and_then(|s| s.parse().ok()).unwrap_or(2);
     let plug_kinds: Vec<Vec<Item>> = vec![
-        vec![Item::C020], vec![Item::C021], vec![Item::C021Bad], vec![Item::X], vec![Item::XBad], vec![Item::Z], vec![Item::X, Item::D], vec![Item::C030], vec![Item::C021Big], vec![Item::C021Empty],
+        vec![Item::C020], vec![Item::C021], vec![Item::C021Bad], vec![Item::X], vec![Item::XBad], vec![Item::Z], vec![Item::X, Item::D], vec![Item::C030], vec![Item::C021Big], vec![Item::C021Empty], vec![Item::C020, Item::C021],
     ];
     let mut lists: Vec<Vec<usize>> = vec![];
     let mut frontier: Vec<Vec<usize>> = vec![vec![]];
@@ -99,7 +106,7 @@ fn main() {
     let (mut cases, mut ok, mut noplug, mut conflict) = (0u64, 0u64, 0u64, 0u64);
     let mut nontrivial: BTreeSet<(u32, Vec<usize>)> = BTreeSet::new();
     let mut samples: Vec<String> = vec![];
-    for smask in 1u32..8 { for extra in [false, true] {
+    for smask in 1u32..16 { for extra in [false, true] {
         for l in &lists {
             cases += 1;
             // ---- the property statement
@@ -161,6 +168,9 @@ fn main() {
             let world = &types[out.ty()];
             let got_imports: BTreeSet<String> = world.imports.keys().cloned().collect();
             let want_imports: BTreeSet<String> = SOCKET_IMPORTS.iter().enumerate().filter(|(i, n)| smask & (1 << i) != 0 && !supplied.contains_key(*n)).map(|(_, n)| n.to_string()).collect();
+            // implicit imports on one semver track are shared under the highest version (C03/C09/C15)
+            let mut want_imports = want_imports;
+            if want_imports.contains("a:b/c@0.2.0") && want_imports.contains("a:b/c@0.2.1") { want_imports.remove("a:b/c@0.2.0"); }
             if got_imports != want_imports { println!("C10-BOUNDED VIOLATION: result imports {:?}, expected the unsupplied socket imports {:?}: {}", got_imports, want_imports, show()); std::process::exit(1); }
             let got_exports: BTreeSet<String> = world.exports.keys().cloned().collect();
             let mut want_exports: BTreeSet<String> = ["run".to_string()].into_iter().collect();
